@@ -371,16 +371,51 @@ Proof.
   eexists; split; [reflexivity|]. eapply view_set_state. apply view_append_token. eapply view_set_buffer; eassumption.
 Qed.
 
-(* the sign of an exponent: '+' or '-' right after 'e' with a decimal / float mantissa in the buffer *)
-Lemma step_exp_sign : forall s b t r, (r = 43 \/ r = 45) -> sci_prefix_ok b = true -> view s LNormal b t 101 ->
+(* the sign of an exponent: '+' or '-' right after 'e' / 'E' with a decimal / float mantissa in the buffer *)
+Lemma step_exp_sign : forall s b t r e, (r = 43 \/ r = 45) -> (e = 101 \/ e = 69) -> sci_prefix_ok b = true -> view s LNormal b t e ->
   exists s1, lex_rune s r = LOk s1 /\ view s1 LNormal (b ++ [r]) t r.
 Proof.
-  intros s b t r Hr Hs V. rewrite lex_rune_normal by apply V.
+  intros s b t r e Hr He Hs V. rewrite lex_rune_normal by apply V.
   apply (push_view _ _ _ _ _ r) in V. set (s1 := ring_push r s) in *. clearbody s1.
   unfold lex_normal.
   replace ((r =? 43) || (r =? 45)) with true by (destruct Hr; subst r; reflexivity). cbv iota.
-  rewrite (p_two _ _ _ _ _ _ V), (p_buf _ _ _ _ _ _ V), Hs. change ((101 =? 101) || (101 =? 69)) with true. cbv iota. cbn [andb].
+  rewrite (p_two _ _ _ _ _ _ V), (p_buf _ _ _ _ _ _ V), Hs.
+  replace ((e =? 101) || (e =? 69)) with true by (destruct He; subst e; reflexivity). cbv iota. cbn [andb].
   eexists; split; [reflexivity|]. apply view_write_rune. eapply pview_view; eassumption.
+Qed.
+
+(* a sign in operator position: '+' or '-' with an empty buffer *)
+Lemma step_sign : forall s t p r, (r = 43 \/ r = 45) -> view s LNormal [] t p ->
+  exists s1, lex_rune s r = LOk s1 /\ view s1 LBuiltinOperator [] t r /\ l_prevrune s1 = r /\ l_prebuiltin s1 = p.
+Proof.
+  intros s t p r Hr V. rewrite lex_rune_normal by apply V.
+  apply (push_view _ _ _ _ _ r) in V. set (s1 := ring_push r s) in *. clearbody s1.
+  unfold lex_normal. replace ((r =? 43) || (r =? 45)) with true by (destruct Hr; subst r; reflexivity). cbv iota.
+  rewrite (p_buf _ _ _ _ _ _ V), sci_prefix_nil, andb_false_r.
+  unfold with_dump, dump_buffer. rewrite (p_buf _ _ _ _ _ _ V).
+  eexists; split; [reflexivity|]. split; [|split].
+  - apply view_set_prevrune, view_set_prebuiltin. eapply view_set_state. eapply pview_view; eassumption.
+  - dst s1; reflexivity.
+  - rewrite <- (p_two _ _ _ _ _ _ V). dst s1; reflexivity.
+Qed.
+
+(* the sign operator followed by a plain rune that starts neither a number nor a two-rune operator:
+   the symbol + / - is emitted and the rune starts a new atom *)
+Lemma step_sign_plain : forall s t r c,
+  view s LBuiltinOperator [] t r -> l_prevrune s = r -> (r = 43 \/ r = 45) -> plain c ->
+  re_match re_FloatRegex [r; c] = false -> re_match re_DecimalRegex [r; c] = false -> re_match re_BuiltinOpRegex [r; c] = false ->
+  exists s1, lex_rune s c = LOk s1 /\ view s1 LNormal [c] (t ++ [mkTok TSymbol [r]]) c.
+Proof.
+  intros s t r c V Hpr Hr Hp H1 H2 H3. rewrite lex_rune_builtin by apply V.
+  apply (push_view _ _ _ _ _ c) in V. apply pview_view in V.
+  assert (l_prevrune (ring_push c s) = r) as Hpr1 by (dst s; exact Hpr).
+  set (s1 := ring_push c s) in *. clearbody s1.
+  unfold lex_builtin.
+  assert (l_prevrune (set_state LNormal s1) = r) as E1 by (dst s1; exact Hpr1).
+  rewrite E1, H1, H2, H3. rewrite andb_false_r. cbv iota.
+  rewrite lex_normal_plain by assumption.
+  eexists; split; [reflexivity|].
+  apply (view_write_rune _ _ [] _ _ c). apply view_append_token. eapply view_set_state. eassumption.
 Qed.
 
 (* ======== Part 2: regex facts ======== *)
